@@ -57,10 +57,13 @@ pub struct Scn {
     pub doc: Option<String>,
     #[serde(default)]
     pub label: String,
+    /// configuration fields which must not influence the random stream
+    #[serde(default)]
+    pub cfg: Option<Cfg>,
 }
 
 const SITES: &[&str] = &[
-    "x", "xy", "text", "textel", "data", "class", "comment", "var", "circle-r", "line-x2", "points", "wh", "style", "id-ref", "id", "g-id",
+    "x", "xy", "text", "textel", "data", "class", "comment", "var", "circle-r", "line-x2", "points", "wh", "style", "id-ref", "id", "g-id", "eq-bounds",
 ];
 
 fn fstr(x: f32) -> String {
@@ -75,6 +78,8 @@ fn fstr(x: f32) -> String {
 }
 
 const B: &str = "{{randint(0, 999999)}}";
+/// a draw whose bounds coincide still consumes one step of the stream
+const BEQ: &str = "{{randint(7, 7)}}";
 
 fn render_items(items: &[Item], in_template: bool, out: &mut String) {
     for it in items {
@@ -98,6 +103,7 @@ fn render_items(items: &[Item], in_template: bool, out: &mut String) {
                     "points" => format!("<polyline id=\"{idp}\" points=\"0 0 {B} 5\"/>"),
                     // the id itself is computed (elements are registered by id before they are evaluated)
                     "id" => format!("<rect id=\"{m}_{B}\" xy=\"0 {j}\" wh=\"2\"/>"),
+                    "eq-bounds" => format!("<rect xy=\"0 {j}\" wh=\"2\" data-k=\"{m}_{BEQ}\"/>"),
                     "g-id" => format!("<g id=\"{m}_{B}\"><rect xy=\"0 {j}\" wh=\"2\"/></g>"),
                     _ => format!("<rect xy=\"0 {j}\" wh=\"2\" data-r=\"{m}_{B}\"/>"),
                 };
@@ -197,7 +203,12 @@ impl<'a> Model<'a> {
             match it {
                 Item::Beacon { j, site } => {
                     let lo = if site == "circle-r" { 1 } else { 0 };
-                    let v = self.beacon(lo);
+                    let v = if site == "eq-bounds" {
+                        self.draws += 1;
+                        self.rng.random_range(7..=7)
+                    } else {
+                        self.beacon(lo)
+                    };
                     let key = match (tmark, site.as_str()) {
                         (Some(m), "x" | "xy" | "wh" | "circle-r" | "line-x2" | "points") => format!("#{m}e{j}"),
                         (None, "x" | "xy" | "wh" | "circle-r" | "line-x2" | "points") => format!("#e{j}"),
@@ -329,7 +340,11 @@ fn observe(out: &str, tree: &[Node], key: &str, site: &str) -> Vec<String> {
     while let Some(p) = rest.find(key) {
         let after = &rest[p + key.len()..];
         let val: String = after.chars().take_while(|c| c.is_ascii_digit() || *c == '.' || *c == '-').collect();
-        v.push(val);
+        // (with debug on, the source of the element is echoed in a comment: the marker
+        // followed by the unevaluated expression is not an observation)
+        if !val.is_empty() {
+            v.push(val);
+        }
         rest = after;
     }
     v
@@ -483,6 +498,7 @@ impl Engine for C14 {
                 items: vec![],
                 doc: Some(format!("<svg>{pre}{body}</svg>")),
                 label: format!("{kind}:{site}:{neighbour}"),
+                cfg: None,
             };
             return serde_json::to_value(scn).unwrap();
         }
@@ -510,6 +526,18 @@ impl Engine for C14 {
             items,
             doc: None,
             label: String::new(),
+            cfg: if index % 4 == 1 {
+                let mut c = Cfg::default();
+                c.use_local_styles = w.chance(1, 2);
+                c.debug = w.chance(1, 3);
+                c.add_metadata = w.chance(1, 3);
+                c.theme = w.pick(crate::docgen::THEMES).to_string();
+                c.scale = 2.0;
+                c.border = w.below(9) as u16;
+                Some(c)
+            } else {
+                None
+            },
         };
         serde_json::to_value(scn).unwrap()
     }
@@ -523,7 +551,7 @@ impl Engine for C14 {
                 return res;
             }
         };
-        let mut cfg = Cfg::default();
+        let mut cfg = scn.cfg.clone().unwrap_or_default();
         cfg.add_auto_styles = false;
         cfg.seed = scn.seed;
         let doc = render(&scn);
